@@ -40,29 +40,32 @@ def judge(module: str, events: list[dict], shards: int = 16, timeout: int = 900,
         parts = [events[i::shards] for i in range(shards)]
         out = {}
         skipped = 0
+        counter = [0]
+
+        def judge_part(part, idx):
+            """verdicts of one part; an overflow stops TLC at one event, so the part is bisected until the offending events are isolated"""
+            _, verdicts, accepted, errors, tail = _run_shard(module, part, idx, tmp, timeout)
+            if accepted:
+                return verdicts, 0
+            if not any('verflow' in e for e in errors):
+                raise MachineryError(f'trace validation of a shard with {module} failed:\n' + '\n'.join(errors[:10]) + '\n' + tail)
+            if len(part) == 1:
+                return {part[0]['tid']: {'tid': part[0]['tid'], 'v': 'skipped_out_of_arithmetic_range'}}, 1
+            res, sk = {}, 0
+            half = len(part) // 2
+            for sub in (part[:half], part[half:]):
+                counter[0] += 1
+                v, k = judge_part(sub, 1000 * (idx % 1000 + 1) + counter[0])
+                res.update(v)
+                sk += k
+            return res, sk
+
         with cf.ThreadPoolExecutor(max_workers=shards) as ex:
-            futs = [ex.submit(_run_shard, module, part, i, tmp, timeout) for i, part in enumerate(parts)]
-            pending_retry = []
+            futs = [ex.submit(judge_part, part, i) for i, part in enumerate(parts)]
             for fu in futs:
-                idx, verdicts, accepted, errors, tail = fu.result()
+                verdicts, k = fu.result()
                 out.update(verdicts)
-                if not accepted:
-                    if any('verflow' in e for e in errors):
-                        pending_retry.append((idx, verdicts))
-                    else:
-                        raise MachineryError(f'trace validation of shard {idx} with {module} failed:\n' + '\n'.join(errors[:10]) + '\n' + tail)
-            # an overflow stops TLC at one event: judge the remaining events of that shard one by one
-            for idx, verdicts in pending_retry:
-                rest = [e for e in parts[idx] if e['tid'] not in verdicts]
-                for k, ev in enumerate(rest):
-                    _, v2, acc2, err2, tail2 = _run_shard(module, [ev], 1000 + idx * 1000 + k, tmp, timeout)
-                    if acc2:
-                        out.update(v2)
-                    elif any('verflow' in e for e in err2):
-                        out[ev['tid']] = {'tid': ev['tid'], 'v': 'skipped_out_of_arithmetic_range'}
-                        skipped += 1
-                    else:
-                        raise MachineryError(f'trace validation with {module} failed on one event:\n' + '\n'.join(err2[:10]) + '\n' + tail2)
+                skipped += k
         missing = [e['tid'] for e in events if e['tid'] not in out]
         if implicit_ok:
             # the trace specification prints only rejections; acceptance of the whole shard (POSTCONDITION) proves every event was judged
